@@ -129,6 +129,9 @@ NAMES_PROGS = [
     ('single-branch-reads-own-name', 'Option<i64>',
      '{ let v = Some(1000_i64); let _ = v; try_join! { let v = Some(2_i64) |> |x| x * 2 ~|> { let seen = v.unwrap_or(-1); move |x| x + seen } ~|> { let seen = v.unwrap_or(-1); move |x| x * seen } } }',
      'Some(64)'),
+    ('name-after-deferred-member-access', 'Result<(i64, i64), i64>',
+     '{ let a = Ok::<i64, i64>(-5); let _ = a; try_join! { let a = Ok::<i64, i64>(1) ~..map(|x| x + 10), Ok::<i64, i64>(5) ~|> { let seen = a.clone().unwrap_or(-1); move |v| v + seen } } }',
+     'Ok((11, 6))'),
     ('finished-branch-name-still-visible', 'Option<(i64, i64, i64)>',
      '{ let small = Some(500_i64); let _ = small; try_join! { Some(1_i64) ~|> |x| x ~|> |x| x, let small = Some(3_i64), Some(10_i64) ~|> |x| x + 1 ~|> { let s = small.unwrap_or(-1); move |x| x + s } } }',
      'Some((1, 3, 14))'),
@@ -154,6 +157,16 @@ PAIRS_PROGS = [
      _pair(['try_join_async', 'try_join_async_spawn', 'try_async_spawn'],
            'futures::future::ready(Ok::<i64, i64>(1)) ~..then(|_: Result<i64, i64>| futures::future::pending::<Result<i64, i64>>()), futures::future::ready(Ok::<i64, i64>(2)) ~=> |_: i64| futures::future::ready(Err::<i64, i64>(9))', 'i64', _tmo),
      'vec![9, 9, 9]'),
+    ('sync-family-agrees-when-a-nested-chain-updates-a-captured-counter', 'Vec<i64>',
+     _pair(['join', 'join_spawn', 'spawn'],
+           'Some(Some(0_i64)) => >>> |> |x| { n += 1; x } <<< |> |x| x + n, Some(5_i64)', 'i64',
+           lambda m, b: 'let mut n = 100_i64; let r = %s! { %s }; r.0.unwrap() * 10 + r.1.unwrap()' % (m, b)),
+     'vec![1015, 1015, 1015]'),
+    ('async-family-hoists-block-operands-of-nested-chains-once', 'Vec<(Vec<Option<i64>>, i64)>',
+     _pair(['join_async', 'join_async_spawn', 'async_spawn'],
+           'futures::future::ready(vec![Some(1_i64), Some(2), Some(3)]) |> >>> ..into_iter() |> >>> |> { CNT.fetch_add(1, std::sync::atomic::Ordering::SeqCst); |x: i64| x + 1 } <<< =>[] Vec<Option<i64>> <<<', 'i64',
+           lambda m, b: 'static CNT: std::sync::atomic::AtomicI64 = std::sync::atomic::AtomicI64::new(0); let rt = tokio::runtime::Builder::new_current_thread().enable_all().build().unwrap(); let r = rt.block_on(%s! { %s }); (r, CNT.load(std::sync::atomic::Ordering::SeqCst))' % (m, b)),
+     'vec![(vec![Some(2), Some(3), Some(4)], 1), (vec![Some(2), Some(3), Some(4)], 1), (vec![Some(2), Some(3), Some(4)], 1)]'),
     ('sync-family-agrees-on-a-deep-stack-branch', 'Vec<i64>',
      _pair(['join', 'join_spawn', 'spawn'],
            'Some(1_i64) |> |x| { let a = std::hint::black_box([1u8; 600_000]); let mut s = 0_i64; for i in (0..a.len()).step_by(4096) { s += a[i] as i64; } x + s }, Some(2_i64) |> |x| x + 1', 'i64',
@@ -162,9 +175,32 @@ PAIRS_PROGS = [
 ]
 
 
+# C05: the EARLIEST failing step decides - also when the later step is started by a deferred member access `~..m()`
+DOT_PROGS = [
+    ('earliest-failing-step-with-deferred-member-access', 'Result<(i64, i64), i64>',
+     'try_join! { Ok::<i64, i64>(1) ~..and_then(|_| Err::<i64, i64>(10)), Err::<i64, i64>(20) }', 'Err(20)'),
+    ('earliest-failing-step-with-deferred-member-access-spawn', 'Result<(i64, i64), i64>',
+     'try_join_spawn! { Ok::<i64, i64>(1) ~>.and_then(|_| Err::<i64, i64>(10)), Err::<i64, i64>(20) }', 'Err(20)'),
+    ('deferred-member-access-not-run-after-failure', '(Result<(i64, i64), i64>, i64)',
+     '{ let n = std::cell::Cell::new(0_i64); let r = try_join! { Ok::<i64, i64>(1) ~..map(|x| { n.set(n.get() + 1); x }), Err::<i64, i64>(20) }; (r, n.get()) }', '(Err(20), 0)'),
+]
+
+# C09: every branch of a step is polled by the first poll, however many branches the step has
+ASYNC9_PROGS = [
+    ('ten-branches-all-polled-by-the-first-poll', 'u32',
+     '{ use std::sync::atomic::{AtomicU32, Ordering::SeqCst}; use std::future::Future; static F: AtomicU32 = AtomicU32::new(0); fn p(i: u32) -> impl Future<Output = i64> { futures::future::poll_fn(move |_| { F.fetch_or(1 << i, SeqCst); std::task::Poll::<i64>::Pending }) } let mut fut = join_async! { p(0), p(1), p(2), p(3), p(4), p(5), p(6), p(7), p(8), p(9) }; let w = futures::task::noop_waker(); let mut cx = std::task::Context::from_waker(&w); let _ = fut.as_mut().poll(&mut cx); F.load(SeqCst) }',
+     '1023'),
+    ('a-ready-tenth-branch-is-not-held-back', 'bool',
+     '{ let rt = tokio::runtime::Builder::new_current_thread().enable_all().build().unwrap(); let (tx, rx) = futures::channel::oneshot::channel::<i64>(); let tx = std::cell::RefCell::new(Some(tx)); rt.block_on(async { tokio::time::timeout(std::time::Duration::from_millis(1500), join_async! { async { rx.await.unwrap_or(-1) }, futures::future::ready(1_i64), futures::future::ready(2_i64), futures::future::ready(3_i64), futures::future::ready(4_i64), futures::future::ready(5_i64), futures::future::ready(6_i64), futures::future::ready(7_i64), futures::future::ready(8_i64), futures::future::ready(9_i64) |> |x| { if let Some(t) = tx.borrow_mut().take() { let _ = t.send(x); } x } }).await.is_ok() }) }',
+     'true'),
+]
+
+LISTS = ('opts', 'asyncpanic', 'names', 'pairs', 'dot', 'async9')
+
+
 def run(tier, which='nest'):
     global PROGS
-    PROGS = {'nest': list(BASE_PROGS) + [eighteen()], 'opts': list(OPTS_PROGS), 'asyncpanic': list(ASYNCPANIC_PROGS), 'names': list(NAMES_PROGS), 'pairs': list(PAIRS_PROGS)}[which]
+    PROGS = {'nest': list(BASE_PROGS) + [eighteen()], 'opts': list(OPTS_PROGS), 'asyncpanic': list(ASYNCPANIC_PROGS), 'names': list(NAMES_PROGS), 'pairs': list(PAIRS_PROGS), 'dot': list(DOT_PROGS), 'async9': list(ASYNC9_PROGS)}[which]
     os.makedirs(os.path.join(RT, 'src', 'bin'), exist_ok=True)
     shutil.copyfile(os.path.join(jv.REPO, 'Cargo.lock'), os.path.join(RT, 'Cargo.lock'))
     live = list(PROGS)
